@@ -31,12 +31,20 @@ bool Symtab::load(const char *path) {
             const char *name = str + sy[k].st_name;
             if (!strcmp(name, "verif_repo_text_begin")) repo_lo_ = sy[k].st_value;
             if (!strcmp(name, "verif_repo_text_end")) repo_hi_ = sy[k].st_value;
+            if (!strcmp(name, "verif_repo_data_begin")) data_.lo = sy[k].st_value + 1;
+            if (!strcmp(name, "verif_repo_data_end")) data_.hi = sy[k].st_value;
+            if (!strcmp(name, "verif_repo_bss_begin")) bss_.lo = sy[k].st_value + 1;
+            if (!strcmp(name, "verif_repo_bss_end")) bss_.hi = sy[k].st_value;
+            if (ELF64_ST_TYPE(sy[k].st_info) == STT_OBJECT && sy[k].st_shndx != SHN_UNDEF) data_syms_.push_back(Sym{sy[k].st_value, sy[k].st_size, name});
             if (ELF64_ST_TYPE(sy[k].st_info) != STT_FUNC || sy[k].st_shndx == SHN_UNDEF) continue;
             syms_.push_back(Sym{sy[k].st_value, sy[k].st_size, name});
         }
     }
     munmap(m, st.st_size);
     std::sort(syms_.begin(), syms_.end(), [](const Sym &a, const Sym &b) { return a.addr < b.addr; });
+    std::sort(data_syms_.begin(), data_syms_.end(), [](const Sym &a, const Sym &b) { return a.addr < b.addr; });
+    if (data_.hi < data_.lo) data_ = Range();
+    if (bss_.hi < bss_.lo) bss_ = Range();
     return !syms_.empty();
 }
 
@@ -46,5 +54,12 @@ const Sym *Symtab::lookup(uint64_t pc) const {
     --it;
     if (it->size ? pc < it->addr + it->size : pc < it->addr + 4096) return &*it;
     return nullptr;
+}
+std::string Symtab::data_sym(uint64_t addr) const {
+    auto it = std::upper_bound(data_syms_.begin(), data_syms_.end(), addr, [](uint64_t v, const Sym &s) { return v < s.addr; });
+    if (it == data_syms_.begin()) return "?";
+    --it;
+    if (addr < it->addr + std::max<uint64_t>(it->size, 1)) return it->name + "+" + std::to_string(addr - it->addr);
+    return "?";
 }
 }  // namespace sim
